@@ -272,9 +272,10 @@ def load_findings():
 
 # ------------------------------------------------------------------ the check
 class C14:
-    def __init__(self, rep, dedup):
+    def __init__(self, rep, dedup, idle=True):
         self.rep = rep
         self.dedup = 1 if dedup else 0
+        self.idle = 1 if idle else 0     # do the (P)UNSUBSCRIBE handlers confirm when the manager returned nothing?
         self.impl = impl_driver("pubsub")
         self.model = lean_driver("pubsub")
         self.oracle_failures = []     # (kind, detail): the property itself fails on the implementation
@@ -358,8 +359,8 @@ class C14:
                 want = orc.unsub(op[1], op[2], op[3])
                 canon = canon_all_acks if op[3] is None else (lambda x: x)
                 if silent and not ia:
-                    # the connection holds nothing and the code answers nothing at all: there is no
-                    # acknowledgement whose count could be wrong (the missing reply is C05's subject)
+                    # library API: the manager returns no SubResult for a connection without an entry; the
+                    # confirmations are then written by the server handlers (judged on the TCP layer)
                     if record:
                         rep.count("unsub.silent-no-subscriptions")
                 else:
@@ -610,6 +611,9 @@ def frame_event(f):
     """a frame read from a socket -> the event notation of the Lean driver (`showEvent`)"""
     if f[0] == "i":
         return "n:%d" % f[1]
+    if f[0] == "a" and len(f[1]) == 3 and f[1][0] in (("b", b"unsubscribe"), ("b", b"punsubscribe")) and f[1][1] == ("nb",) and f[1][2][0] == "i":
+        # confirmation with a nil name (argument-less (P)UNSUBSCRIBE, nothing of that kind held)
+        return "a:%s:1:_:%d" % ("c" if f[1][0][1] == b"unsubscribe" else "p", f[1][2][1])
     if f[0] == "a" and f[1] and all(x[0] in ("b", "i") for x in f[1]):
         xs = f[1]
         kind = xs[0][1] if xs[0][0] == "b" else None
@@ -763,14 +767,17 @@ def tcp_history(check, tcp, ops, record=True):
                 tcp.ghosts.append({"c": list(h["c"]), "p": list(h["p"])})
             orc.disc(op[1])
         elif op[0] == "sub":
-            orc.sub(op[1], op[2], op[3])
+            want_acks = orc.sub(op[1], op[2], op[3])
         elif op[0] == "unsub":
-            orc.unsub(op[1], op[2], op[3])
+            held_before = orc.count(op[1])
+            want_acks = orc.unsub(op[1], op[2], op[3])
+            if op[3] is None and not want_acks:
+                want_acks = [(None, orc.count(op[1]), False)]     # nil name, remaining count
         gmax = 0
         if op[0] == "pub":
             gmax = sum((1 if op[2] in g["c"] else 0) + sum(1 for p in g["p"] if spec_glob(p, op[2])) for g in tcp.ghosts)
         for c in (1, 2, 3, 4):
-            m = split_cs(check.ask_model("recv %d %d" % (check.dedup, c)), ("C", "S"))
+            m = split_cs(check.ask_model("recv %d %d %d" % (check.dedup, check.idle, c)), ("C", "S"))
             ec, es = parse_events(m["C"]), parse_events(m["S"])
             new_c, new_s = ec[len(prev[c][0]):], es[len(prev[c][1]):]
             prev[c] = (ec, es)
@@ -781,12 +788,16 @@ def tcp_history(check, tcp, ops, record=True):
             ints_r, real_f = canon_events(real, ua)
             ints_c, code_f = canon_events(new_c, ua)
             ints_s, spec_f = canon_events(new_s, ua)
-            if op[0] == "unsub" and c == op[1] and not real and not new_c and new_s:
-                # nothing held, nothing answered: no acknowledgement whose count could be wrong (C05's subject)
-                if record:
-                    rep.count("tcp.unsub.silent-no-subscriptions")
-                continue
             base = {"i": i, "op": line, "conn": c, "layer": "tcp"}
+            if c == op[1] and op[0] in ("sub", "unsub"):
+                # the confirmations due, from the oracle written here (cross-check of the Lean Spec)
+                want_ev = ["a:%s:%d:%s:%d" % (op[2], 1 if op[0] == "unsub" else 0, hx(a[0]) if a[0] is not None else "_", a[1]) for a in want_acks]
+                if canon_events(want_ev, ua)[1] != spec_f:
+                    dis.append(dict(base, lean_spec="|".join(new_s) or ".", oracle="|".join(want_ev) or ".", what="Lean Spec vs Python oracle"))
+                if record and op[0] == "unsub" and any(a[0] is None for a in want_acks):
+                    rep.count("tcp.unsub.nil-name-confirmation")
+                if record and op[0] == "unsub" and held_before == 0:
+                    rep.count("tcp.unsub.client-holds-nothing")
             # -- the property, judged on what the sockets delivered
             if real_f != spec_f:
                 shape = "other"
@@ -876,6 +887,8 @@ def main(tier, seed):
         "bytes are modelled as Nat; the harness sends values < 256 only",
         "the mutexes of PubSubManager are not modelled: the server calls it from the single command thread only",
         "[...] classes are not part of the grammar of pubsub.rs's matcher (documented as `*` and `?`); Spec.glob gives meaning to * ? \\x only",
+        "in-process layer: PubSubManager::unsubscribe/punsubscribe return no result for a connection without an entry; the confirmations a client "
+        "holding nothing is due are written by handle_unsubscribe/handle_punsubscribe and are judged on the TCP layer (model: Code.unsubEvents)",
         "TCP layer: one command at a time per connection (no pipelining); frames are attributed to operations by PING barriers; "
         "when the server notices a closed socket is connection handling (server.rs), not part of the Lean model: the model's `disconnect` is the call of unsubscribe_all",
     ]
@@ -883,11 +896,12 @@ def main(tier, seed):
     build_harness("pubsub")
     build_server()
     facts = source_facts()
-    dedup, keeps_dead = facts["dedup"], facts["keeps_dead"]
+    dedup, keeps_dead, idle = facts["dedup"], facts["keeps_dead"], facts["acks_when_idle"]
+    rep.extra["source_acks_when_idle"] = idle
     rep.extra["source_dedup"] = dedup
     rep.extra["source_keeps_dead_subscribers"] = keeps_dead
     findings = load_findings()
-    c = C14(rep, True if dedup is None else dedup)
+    c = C14(rep, True if dedup is None else dedup, True if idle is None else idle)
     try:
         c.run(seed, tier)
         rep.traces_validated = rep.evaluations
@@ -945,8 +959,9 @@ def replay(path):
     rep = Report("C14", "replay", obj.get("seed", 0))
     build_driver("pubsub")
     build_harness("pubsub")
-    dedup = source_facts()["dedup"]
-    c = C14(rep, True if dedup is None else dedup)
+    facts = source_facts()
+    dedup, idle = facts["dedup"], facts["acks_when_idle"]
+    c = C14(rep, True if dedup is None else dedup, True if idle is None else idle)
     try:
         if rp.get("ops") and isinstance(rp["ops"][0], list):
             layer = rp.get("layer", "inproc")
